@@ -1,6 +1,7 @@
 package chk
 
 import (
+	"go/types"
 	"fmt"
 	"go/token"
 	"os"
@@ -13,13 +14,13 @@ import (
 
 func travRules() []*Rule {
 	return []*Rule{
-		{ID: "TRAV", Props: []string{"C01", "C02", "C04", "C13"}, Min: 19,
+		{ID: "TRAV", Props: []string{"C01", "C02", "C04", "C13", "C03"}, Min: 19,
 			Doc: "b-tree traversal shape: every iteration method ranges over all cells (or the tail found by the binary search), visits left child → (index interior: the cell's own entry) in that order for every cell with no cell skipped, then the right-most child; leaves emit every visited cell; the rowid leaf search delivers only the first qualifying cell",
 			Run: runTrav},
-		{ID: "TRAV-flag", Props: []string{"C13", "C02"}, Min: 2,
+		{ID: "TRAV-flag", Props: []string{"C13", "C02", "C03"}, Min: 2,
 			Doc: "indexInterior.IterMin: the first child visited is searched (IterMin with the key), every later child and — iff a cell was visited — the right-most child is scanned (Iter)",
 			Run: runTravFlag},
-		{ID: "SRCH", Props: []string{"C13", "C03", "C04"}, Min: 8,
+		{ID: "SRCH", Props: []string{"C13", "C03", "C04", "C02"}, Min: 8,
 			Doc: "binary-search predicates: index pages use Search(key, record-of-that-cell) with the key first and latch the probe error; table pages use `cell key >= rowid` on the right field; the rowid match test is equality and always stops",
 			Run: runSrch},
 	}
@@ -554,14 +555,24 @@ func runSrch(c *Ctx) {
 				if mc, ok := cs.Common().Args[1].(*ssa.MakeClosure); ok {
 					pred = mc.Fn.(*ssa.Function)
 				}
-				c.Check((&Termer{P: p}).Term(cs.Common().Args[0], emptyPS()) == "len(p:l.cells)", spec.fn+" search range", cs.Pos(), "the binary search covers all cells of the page")
+				c.Check((&Termer{P: p}).Term(cs.Common().Args[0], emptyPS()) == "len(p:"+fn.Params[0].Name()+".cells)", spec.fn+" search range", cs.Pos(), "the binary search covers all cells of the page")
 			}
 		}
 		if pred == nil {
 			c.Fail(spec.fn+" search", fn.Pos(), "no sort.Search over the page's cells")
 			continue
 		}
-		tbl, why := boolTable(p, pred, "fv:l.cells[p:n]."+spec.field, "fv:rowid")
+		// names are the author's: the receiver, the predicate's index parameter, the int64 rowid parameter
+		recv, rowidP, idxP := fn.Params[0].Name(), "rowid", "n"
+		for _, prm := range fn.Params[1:] {
+			if b, ok := prm.Type().Underlying().(*types.Basic); ok && b.Kind() == types.Int64 {
+				rowidP = prm.Name()
+			}
+		}
+		if len(pred.Params) == 1 {
+			idxP = pred.Params[0].Name()
+		}
+		tbl, why := boolTable(p, pred, "fv:"+recv+".cells[p:"+idxP+"]."+spec.field, "fv:"+rowidP)
 		c.Check(tbl == "FTT", spec.fn+" predicate", pred.Pos(), "predicate over (cell %s <, =, > rowid) is %s, must be F,T,T: the first cell whose key is ≥ the rowid (interior keys are upper bounds of their left child) %s", spec.field, tbl, why)
 	}
 	// the match test of Table.Rowid
